@@ -316,6 +316,12 @@ func c07Identity(c *vf.Case, r *vf.Rand) {
 	}
 	payload := r.Bytes(n)
 	f := websocket.NewFrame()
+	if r.Chance(1, 3) {
+		// the frame object has carried another payload before (no Reset in between): nothing of it may show in the header
+		prev := []int{0, 1, 3, 5, 77, 125, 126, 200, 65535, 65536}[r.Intn(10)]
+		f.SetPayload(r.Bytes(prev))
+		c.Count("identity_roundtrips_on_a_reused_frame", 1)
+	}
 	fin, r1, r2, r3 := r.Bool(), r.Chance(1, 4), r.Chance(1, 4), r.Chance(1, 4)
 	op := byte(r.Intn(16))
 	masked := r.Bool()
